@@ -17,7 +17,7 @@ RULE = (
     "buffer (identity / reversed / permuted), from which begin/end are computed and passed to "
     "sc.bins; layout classes with extra mass: all events in one bin, empty first and last bin, all "
     "bins empty over a non-empty buffer, zero events in total. Event coordinate dtype float64/"
-    "float32/int64 in a drawn unit with physical magnitudes (tof 1e-5..1e-1 s, wavelength 0.05..50 "
+    "float32/int64/int32 (int32 with values below 2^31) in a drawn unit with physical magnitudes (tof 1e-5..1e-1 s, wavelength 0.05..50 "
     "angstrom, energy 0.01..1e4 meV, Q 0.01..50 1/angstrom, occasionally 0); weights float64/float32 "
     "with or without variances; a unique int64 event-id coordinate, optionally an event mask; masks "
     "on the pixel dims and on the origin dim; unrelated pixel and scalar coordinates; a bin-edge (or "
@@ -29,9 +29,23 @@ RULE = (
     "times on both sides of t0. Optionally the object is a slice of a larger one and/or an item of a "
     "Dataset (with a dense item beside it). Origins tof, wavelength, energy, Q; targets wavelength, "
     "energy, dspacing, Q, Qx, Qy, Qz, Q_vec, energy_transfer (direct and indirect). layout_grid "
-    "enumerates 6 fixed layouts x 4 grids x 3 event dtypes x all 22 origin/target pairs. "
+    "enumerates 6 fixed layouts x 4 grids x 4 event dtypes x all 22 origin/target pairs. "
+    "convert_history draws such an object (2/3 inelastic), converts it, then changes one geometry "
+    "coordinate of the same object in its own buffer (L1, L2, Ltotal, two_theta, position, "
+    "source_position, sample_position, incident_energy, final_energy: floats and vectors scaled by "
+    "0.8..1.25, two_theta by 0.5..0.98, integers shifted by 1..7; through the parent when the object "
+    "is a slice) and converts again, once or twice; all conversions run back to back after one "
+    "warm-up conversion of a fixed unrelated object, the comparisons with the dense kernels follow, "
+    "each against the snapshot of the coordinates taken before its conversion. convert_large builds "
+    "1-d pixel grids of 701..2003 pixels holding 2^21..3.4e6 events in total (bin sizes 0, n, 2n "
+    "cycled over the pixels, bins in buffer order or reversed, tof float64/float32/int64/int32, "
+    "optional variances and event mask, per-pixel Ltotal/L2/two_theta/final_energy) vectorised from "
+    "a seed in the case (splitmix64 counter hash, no generator state) and compares all events with the "
+    "dense kernels applied to the flat event table with the geometry of each event's pixel repeated "
+    "per event, plus bin sizes, event count, weights, event ids, masks, coordinates. "
     "kernel_events calls the 13 conversion kernels directly with binned variables (1 to 3 binned "
-    "operands sharing begin/end, dense operands per pixel or scalar in drawn units and dtypes); "
+    "operands sharing begin/end, dense operands per pixel or scalar in drawn units and dtypes), in "
+    "1/3 of the cases a second time after one dense operand was changed in place; "
     "gravity_events does the same for the two gravity-corrected angle functions with binned "
     "wavelength (geometry coordinates are kept in the dim order of the data). Oracle: for every bin, the dense kernel chain "
     "(scippneutron.conversion.beamline + .tof functions called on a dense 1-d variable holding that "
@@ -42,7 +56,9 @@ RULE = (
     "rename of the origin dim; every buffer of the input (including events in gaps and the parent of "
     "a slice) bitwise unchanged. A case is non-trivial when at least one event value was compared "
     "and (the grid has an empty and a non-empty bin, or the event dtype is not float64, or the grid "
-    "is 2-d); distinct = distinct descriptor hash."
+    "is 2-d); a history is non-trivial when event values were compared for the last conversion, a "
+    "large case when it has at least 2^21 events and both empty and non-empty bins; distinct = "
+    "distinct descriptor hash."
 )
 TOLERANCES = {"event_values": "bitwise (NaN equals NaN)", "preserved_data": "bitwise"}
 ASSUMPTIONS = [
@@ -55,8 +71,18 @@ ASSUMPTIONS = [
     "(observed: convert of begin=[0,2,2,5,7,7] returns begin=[0,2,2,4,6,6])",
     "which name the origin dim carries afterwards is not part of C06; only that data, masks and "
     "coordinates are renamed consistently",
-    "int32 event coordinates are not generated (scipp's pow rejects int32 in energy_from_tof: a "
-    "dependency limit accepted in C07)",
+    "int32 event coordinates: scipp's pow rejects int32, so conversions to 'energy' (kernels energy_from_tof, "
+    "energy_from_wavelength) raise scipp.DTypeError; that exception is accepted only for int32 events and only "
+    "when the dense kernel chain raises the same DTypeError for an int32 dense coordinate with the same "
+    "geometry (then there is no dense value to compare with); every other int32 conversion is compared "
+    "bitwise, including the result dtype",
+    "a sequence of conversions of one object is only meaningful if the harness does not call the kernels in "
+    "between: convert_history and kernel_events make all calls under test first and the dense reference "
+    "calls afterwards, from copies of the coordinates taken before each call; each such case starts with "
+    "one call on fixed unrelated operands so that its outcome does not depend on the case that ran before it",
+    "convert_large: applying a dense kernel to per-event copies of the pixel geometry (numpy.repeat) gives "
+    "the same bits as applying it to the 0-d geometry of the pixel (element-wise kernels; confirmed on the "
+    "unchanged tree on more than 160 distinct large cases drawn over the 5 targets and 4 dtypes)",
 ]
 
 EVDIM = "event"
@@ -1002,7 +1028,30 @@ def history_cases(draw):
     return case
 
 
+def warm_up_convert(case):
+    """One conversion of a fixed unrelated two-event object with the origin/target of the case, so that every
+    case starts from the same call history whatever case ran before it in this process."""
+    import scippneutron as scn
+
+    origin = case["origin"]
+    geo = {"mode": "positions" if case["scatter"] else "noscatter", "unit": "m",
+           "sample_position": [0.01, 0.02, 0.03], "source_position": [0.0, 0.0, -7.654321],
+           "position": [[1.234567, 0.0, 0.5], [0.3, 1.7, 0.2]]}
+    e = case["geometry"].get("energy")
+    if e is not None:
+        geo["energy"] = {"name": e["name"], "unit": "meV", "dtype": "float64", "values": [7.123456],
+                         "per_pixel": False}
+    fixed = {"origin": origin, "target": case["target"], "scatter": case["scatter"], "grid": "pix",
+             "pix_shape": [2], "nx": 0, "layout": {"sizes": [1, 1], "gaps": [0, 0, 0], "order": [0, 1]},
+             "evdtype": "float64", "unit": FIXED_UNIT[origin], "events": FIXED_EVENTS[origin][:2],
+             "wdtype": "float64", "weights": [1.0, 1.0], "variances": None, "evmask": None, "geometry": geo,
+             "pixmask": None, "xmask": None, "dataset": False, "xcoord": None, "slice": None}
+    da, _, _ = build_input(fixed)
+    scn.convert(da, origin=origin, target=case["target"], scatter=case["scatter"])
+
+
 def check_history(case):
+    warm_up_convert(case)
     da, parent, pix_dims = build_input(case)
     # all conversions first, back to back as a user would run them; the comparisons with the dense kernels
     # (which call the kernels themselves) come afterwards, each against the snapshot taken before its conversion
@@ -1401,6 +1450,26 @@ def _build_dense_operand(op, pix_dims, pix_shape):
     return sc.scalar(np.dtype(op["dtype"]).type(op["values"][0]), unit=op["unit"], dtype=op["dtype"])
 
 
+WARM_UP_OPERANDS = {
+    "tof": (1234.5, "us"), "pulse_time": (11.0, "us"), "wavelength": (1.2345, "angstrom"),
+    "energy": (7.123456, "meV"), "Q": (1.2345, "1/angstrom"), "Ltotal": (23.456, "m"), "L1": (17.654, "m"),
+    "L2": (3.4567, "m"), "two_theta": (0.7654, "rad"), "incident_energy": (7.123456, "meV"),
+    "final_energy": (6.54321, "meV"), "incident_beam": ([0.0, 0.0, 17.654], "m"),
+    "scattered_beam": ([1.2, 0.3, 3.1], "m"),
+}
+
+
+def _warm_up_operand(name):
+    import scipp as sc
+
+    value, unit = WARM_UP_OPERANDS[name]
+    if isinstance(value, list):
+        return sc.vector(value=value, unit=unit)
+    if name in KERNEL_SPECS["time_at_sample_from_tof"][0] or name in ORIGIN_UNITS:
+        return sc.array(dims=[EVDIM], values=[value], unit=unit)
+    return sc.scalar(value, unit=unit)
+
+
 def check_kernel(case):
     import scipp as sc
     from scippneutron.conversion import tof as K
@@ -1425,6 +1494,8 @@ def check_kernel(case):
         args[name] = sc.bins(begin=b.copy(), end=e.copy(), dim=EVDIM, data=buffers[name])
     for name, op in case["dense"].items():
         args[name] = _build_dense_operand(op, pix_dims, pix_shape)
+    # same call history for every case: one dense call with fixed unrelated operands
+    fn(**{name: _warm_up_operand(name) for name in [*case["binned"], *case["dense"]]})
     pending = [_start_kernel(case, fn, args, buffers, pix_dims, pix_shape)]
     step = case.get("mutate")
     if step is not None:
@@ -1749,5 +1820,20 @@ def selftest():
     assert not snap_equal(snap_var(a), snap_var(b))
     b.values[0, 0] = 7.0
     assert not snap_equal(snap_var(a), snap_var(b), any_dim_order=True)
+    # flat event index, by hand: bins [4,6) and [1,4) -> events 4,5,1,2,3
+    assert event_index([4, 1], [2, 3]).tolist() == [4, 5, 1, 2, 3]
+    assert event_index([0, 0, 3], [0, 3, 0]).tolist() == [0, 1, 2]
+    u = uniform01(1000, 5, 2)
+    assert u.min() >= 0.0 and u.max() < 1.0 and 0.4 < u.mean() < 0.6 and len(set(u.tolist())) == 1000
+    assert np.array_equal(u, uniform01(1000, 5, 2)) and not np.array_equal(u, uniform01(1000, 5, 3))
+    assert large_sizes(8, 6, 10).tolist() == [10, 0, 20, 10, 10, 10, 10, 10]
+    # in-place change keeps the buffer: a second handle on the same variable sees it
+    v = sc.array(dims=["p"], values=[1.0, 2.0], unit="m")
+    w = v["p", 0:2]
+    mutate_in_place(v, {"name": "L2", "factor": 1.5})
+    assert w.values.tolist() == [1.5, 3.0]
+    k = sc.scalar(3, unit="meV", dtype="int64")
+    mutate_in_place(k, {"name": "incident_energy", "add": 2})
+    assert k.value == 5 and k.dtype == sc.DType.int64
     # the comparison machinery notices a swapped pair of events
     assert first_diff(np.array([1.0, 2.0]), np.array([2.0, 1.0])).startswith("element 0")
